@@ -19,7 +19,13 @@ import (
 var defNames = []string{"A", "B", "C", "D", "E"}
 
 func simpleProp(r *Rand) M {
-	switch r.Intn(6) {
+	switch r.Intn(9) {
+	case 6: // a formatted string with a default: the default walker consults the format registry
+		return M{"type": "string", "format": "date", "default": pick(r, []any{"2020-01-01", "2020-01-01", "nope"})}
+	case 7: // ... with an example
+		return M{"type": "string", "format": pick(r, []string{"email", "uuid", "date-time"}), "example": pick(r, []any{"a@b.co", "nope"})}
+	case 8:
+		return M{"type": "array", "items": M{"type": "string", "format": "ipv4"}, "default": []any{pick(r, []any{"127.0.0.1", "nope"})}}
 	case 0:
 		return M{"type": "integer", "format": "int64"}
 	case 1:
@@ -153,6 +159,9 @@ func GenSpec(r *Rand, edits int) (M, []string) {
 				(&Gen{r: r}).simpleNoBadPattern(q)
 				ps = append(ps, q)
 			}
+			if r.Chance(250) {
+				ps = append(ps, M{"name": "since", "in": "query", "type": "string", "format": "date", "default": pick(r, []any{"2020-01-01", "nope"})})
+			}
 			if r.Chance(300) {
 				ps = append(ps, M{"$ref": "#/parameters/limitParam"})
 				usedLimit = true
@@ -188,6 +197,9 @@ func GenSpec(r *Rand, edits int) (M, []string) {
 			}
 			if r.Chance(300) {
 				ok["headers"] = M{"X-Rate": M{"type": "integer", "default": 5}}
+				if r.Chance(400) {
+					ok["headers"].(M)["X-When"] = M{"type": "string", "format": "date-time", "default": pick(r, []any{"2020-01-01T10:00:00Z", "nope"})}
+				}
 				if r.Chance(300) {
 					ok["headers"].(M)["X-Matrix"] = M{"type": "array", "items": M{"type": "array", "items": M{"type": "integer"}}}
 				}
